@@ -43,8 +43,6 @@ def check_deliveries(s: MemSession, model: Model, res: Result, label: str) -> No
         cls = "immediate" if d["due"] is None else ("due-past" if d["due"] < d["at"] - S else "due-recent")
         res.dist["deliver:" + cls] += 1
         res.note(("deliver", cls, d["returned_nonnormal"], d["at"] - (d["due"] or 0) if d["due"] is not None else 0))
-        if first_bad is not None and d["log"] > first_bad:
-            continue
         if ans != "true":
             res.bad("impl", "Pred.C05.notEarlyMs on a normal-category delivery",
                     case={"label": label, "ops": ops[: d["log"] + 1], "delivery": d}, observed=ans, expected="true",
